@@ -54,6 +54,7 @@ XEvent(r) ==
     \/ /\ r.ev = "hex" /\ Hx!HexOK(r) /\ UNCHANGED <<gaVars, xVars>>
     \/ /\ r.ev = "hexsink" /\ Hx!HexSinkOK(r) /\ UNCHANGED <<gaVars, xVars>>
     \/ /\ r.ev = "cmp" /\ Cp!CmpOK(r) /\ UNCHANGED <<gaVars, xVars>>
+    \/ /\ r.ev = "cmpslice" /\ Cp!SliceAgreeOK(r) /\ UNCHANGED <<gaVars, xVars>>
     \/ /\ r.ev = "ordcmp" /\ Cp!OrdOK(r) /\ UNCHANGED <<gaVars, xVars>>
     \/ /\ r.ev = "dbg" /\ Cp!DbgOK(r) /\ UNCHANGED <<gaVars, xVars>>
     \/ /\ r.ev = "macro" /\ MacroOK(r) /\ UNCHANGED <<gaVars, xVars>>
